@@ -23,6 +23,19 @@ class TaskError(Exception):
     pass
 
 
+class FalsyHandler:
+    """an exception handler that is a callable object and falsy (it is also the empty list of what it has seen)"""
+
+    def __init__(self, fn):
+        self.fn = fn
+
+    def __call__(self, exc):
+        return self.fn(exc)
+
+    def __len__(self):
+        return 0
+
+
 class CallableTask:
     def __init__(self, fn):
         self.fn = fn
@@ -80,9 +93,18 @@ async def run_case(case):
                 raise TaskError((k, ending[1]))
         return task
 
-    async def watcher(k, handle):
-        await handle.wait_finished()
-        d.obs("Ended", k)
+    async def watcher(k, handle, tg):
+        # several tasks wait for the same handle at the same time: each of them returns once the task has ended
+        n = 2 + k % 2
+        back = []
+
+        async def one():
+            await handle.wait_finished()
+            back.append(1)
+            if len(back) == n:
+                d.obs("Ended", k)
+        for _ in range(n):
+            tg.start_soon(one)
 
     async def do_spawn(tg, k, segs, ending, how, oncancel=None):
         tf = st["tf"]
@@ -98,7 +120,7 @@ async def run_case(case):
             d.obs("SpawnFailed")
             return
         st["handles"].append(h)
-        tg.start_soon(watcher, k, h)
+        await watcher(k, h, tg)
 
     async def commands(tg, where):
         """executes spawn commands in this task's current context"""
@@ -116,7 +138,9 @@ async def run_case(case):
             async def body():
                 async with Context() as ctx:
                     st["owner"] = ctx
-                    st["tf"] = await start_background_task_factory(exception_handler=handler if verdict is not None else None)
+                    st["tf"] = await start_background_task_factory(
+                        exception_handler=(FalsyHandler(handler) if len(case["gates"]) % 2 else handler)
+                        if verdict is not None else None)
                     st["ev_owner"] = anyio.Event()
                     st["ev_child"] = anyio.Event()
                     tg.start_soon(commands, tg, "ev_owner")          # inherits the owner context
